@@ -41,9 +41,10 @@ import (
 )
 
 const (
-	c09RoleMain   = iota // feeding goroutine: needs both writers idle
-	c09RoleSyncer        // inside committedUpTo (block queue syncer goroutine, or feeding goroutine at quiescence): needs the commit syncer idle
-	c09RoleCommit        // inside a commit (commit syncer goroutine): needs the block queue syncer idle
+	c09RoleMain    = iota // feeding goroutine: needs both writers idle
+	c09RoleSyncer         // inside committedUpTo (block queue syncer goroutine, or feeding goroutine at quiescence): needs the commit syncer idle
+	c09RoleCommit         // inside a commit (commit syncer goroutine): needs the block queue syncer idle
+	c09RoleStopped        // feeding goroutine after blockQueue.stop(): the block queue syncer has exited; needs the commit syncer idle
 )
 
 type c09Image struct {
@@ -268,7 +269,7 @@ func (g *c09Rig) snap(kind, ctx string, role int, firstStage bool) {
 		return
 	}
 	l := g.l
-	if role == c09RoleMain || role == c09RoleSyncer {
+	if role == c09RoleMain || role == c09RoleSyncer || role == c09RoleStopped {
 		g.mu.Lock()
 		defer g.mu.Unlock()
 		if g.commitActive {
@@ -521,6 +522,34 @@ func (g *c09Rig) commit() {
 	g.l.notifyCommit(g.l.Latest())
 	g.l.trackers.waitAccountsWriting()
 	g.quiesce()
+}
+
+const c09FlushTimeout = 90 * time.Second
+
+// waitDurable waits until the ledger confirms that block r is durable: through the Wait(r) channel, or by polling
+// LatestCommitted() (the condition WaitForCommit sleeps on) followed by WaitForCommit(r). false = not within c09FlushTimeout
+// (wall clock is used only to give up, never for a verdict).
+func (g *c09Rig) waitDurable(r basics.Round, channel bool) bool {
+	l := g.l
+	deadline := time.Now().Add(c09FlushTimeout)
+	if channel {
+		select {
+		case <-l.Wait(r):
+			return true
+		case <-time.After(c09FlushTimeout):
+			return false
+		}
+	}
+	for {
+		if committed, _ := l.LatestCommitted(); committed >= r {
+			l.WaitForCommit(r)
+			return true
+		}
+		if time.Now().After(deadline) {
+			return false
+		}
+		time.Sleep(200 * time.Microsecond)
+	}
 }
 
 func (g *c09Rig) close() {
@@ -1027,10 +1056,23 @@ func c09Run(tb *testing.T, t *rapid.T, vk *vkCtx) {
 				}
 			}
 			last := next - 1
-			if rapid.Bool().Draw(t, "waitChannel") {
-				<-rig.l.Wait(last)
-			} else {
-				rig.l.WaitForCommit(last)
+			if !rig.waitDurable(last, rapid.Bool().Draw(t, "waitChannel")) {
+				// The flush does not complete (never seen on the clean tree: an injected COMMIT failure is one-shot and the
+				// syncer retries at once). What the ledger itself reports as durable counts as confirmed; the block queue is
+				// stopped the way Close() stops it, so that nothing writes any more, and the state is imaged and judged.
+				committed, _ := rig.l.LatestCommitted()
+				if uint64(committed) > rig.confirmed.Load() {
+					rig.confirmed.Store(uint64(committed))
+				}
+				rig.l.blockQ.stop()
+				rig.l.trackers.waitAccountsWriting()
+				rig.force.Store(1)
+				rig.snap("flush-stuck", fmt.Sprintf("r%d", last), c09RoleStopped, false)
+				rig.force.Store(0)
+				c.tracef("add %d..%d: flush of block %d did not complete; LatestCommitted() = %d", first, last, last, committed)
+				c.drain(t)
+				t.Fatalf("ENGINE: the block flush of round %d did not complete within %v (LatestCommitted %d, injected faults [%s]); the image of the stuck state passed the oracle\n%s",
+					last, c09FlushTimeout, committed, rig.faults(), strings.Join(c.trace, "\n"))
 			}
 			rig.confirmed.Store(uint64(last))
 			rig.snap("after-WaitForCommit", fmt.Sprintf("r%d", last), c09RoleMain, false)
